@@ -276,7 +276,8 @@ def run_main(v, tier, seed, thorough, rng, states, trans, side, stall_out):
             v.violation("bookkeeping of finished remote calls is left behind", {**case, "outstanding_entries": o["pending_after"]})
         if o["id"] % 90 == 0:
             v.sample({"connection": s["conn"], "schedule": s["hist"], "results": [r["got"]["kind"] for r in o["results"]], "pending_after": o["pending_after"]})
-    if desync > len(obs) // 4:
+    # (schedules that cannot be followed are themselves a symptom when a caller panicked or never returned: what was observed stands)
+    if desync > len(obs) // 4 and not v.violations:
         raise lib.ToolError(f"{desync} of {len(obs)} schedules could not be followed on the real node (scheduler / hooks out of step)")
     n_free = free_traces(v, thorough, seed)
     judge_stall(v, side, stall_out)
